@@ -4,6 +4,8 @@ CONSTANTS
   Ctxs = {"top", "mixin", "fn"}
   CondSet = {"true", "false", "null", "0", "1", "str_empty", "str_x", "()", "(1 2)", "(a: 1)", "red"}
   MaxConds = 3
+  ElseSet = {0, 1}
+  NCondSet = {}
   AVals = {}
   BVals = {}
   TVals = {}
